@@ -185,12 +185,8 @@ fn run_history(case: &Value, st: &mut Stats) -> V {
                         if o % b.slot_size as usize != 0 {
                             return bad("slot-boundary", format!("step {step}: buffer at +{o} in class {c} is not on a slot boundary"));
                         }
-                        if kind == "alloc" && len != b.slot_size as usize {
-                            return bad("slot-length", format!("step {step}: pooled buffer of {len} bytes from class of {}", b.slot_size));
-                        }
-                        if ps.arena_offset() != before_off {
-                            return bad("pooled-grew-arena", format!("step {step}: a pooled allocation advanced the arena"));
-                        }
+                        // (the reported length only has to cover the request, checked above; whether a
+                        // pooled allocation touches the arena is no part of the statement)
                         let idx = (o / b.slot_size as usize) as u32;
                         if let Some(p) = free_model[c].iter().position(|x| *x == idx) {
                             free_model[c].remove(p);
@@ -267,9 +263,11 @@ fn run_history(case: &Value, st: &mut Stats) -> V {
                 st.frees += 1;
                 match b.slot {
                     Some((c, idx)) => {
+                        // it must be back in the class it came from; where in that class's free list is
+                        // the pool's business
                         let fl = ps.free_list(c);
-                        if fl.last() != Some(&idx) {
-                            return bad("wrong-class-release", format!("step {step}: slot {idx} released to class {c} is not on that class's free list (top {:?})", fl.last()));
+                        if !fl.contains(&idx) {
+                            return bad("wrong-class-release", format!("step {step}: slot {idx} released to class {c} is not on that class's free list"));
                         }
                         for d in 0..pv::CLASSES {
                             let now = ps.class_state(d);
